@@ -46,6 +46,13 @@ CHECKS = {
         note="Trusted: CPython ast; the accepted skip guards (no masses / no force constants yet) and the net-identity exception (show_drift_force_constants) are listed in the rule source. The documented zero-copy contract of Phonopy.force_constants is not judged. One known finding (deprecated frequency_scale_factor).",
         ref="DESIGN.md §3 C15",
     ),
+    "C17": dict(
+        technique="static analysis on Python ast: dispatch-table extraction and exhaustiveness over the calculator registry with callee existence/arity resolution, constant folding of units.py against a dimensional model of each unit string (factor, NAC factor, lengths, forces, conversion table), atom-order domain typing (original / sorted-by-species / permutation / grouped counts) in the structure writers, reader-tuple vs consumer shape agreement, refusal-path rule for create_FORCE_SETS",
+        level="other",
+        text="Decides exhaustively over the 16 calculators: a handler exists with a compatible signature in all 7 dispatch functions; every unit number equals what its own unit strings imply (to 1e-9) so that one crystal gives the same THz in every unit system; no writer pairs a per-atom sequence in original order with one sorted by species (the defect only shows for interleaved input, which no sample file has); consumers index the reader's info tuple within its length; position mismatches refuse. Does not decide textual round trips of particular files or lattice orientation conventions.",
+        note="Trusted: CPython ast; the per-atom meaning of two writer parameters (speci, conv_numbers) is a frozen table with reasons. Relative tolerance 1e-9 against constants folded from units.py itself.",
+        ref="DESIGN.md §3 C17",
+    ),
     "C20": dict(
         technique="static analysis: source-to-sympy translation of the three equations of state and symbolic differentiation (12 defining-meaning obligations); open-term normal-form comparison of the QHA finite-difference, unit and PV formulas with the documented ones; dispatch/unpack-order table rules",
         level="proof",
